@@ -24,6 +24,7 @@ RootFens == <<
   "4k3/8/8/8/8/8/8/R3K1N1 w Q - 0 1",        \* unequal rights that survive a knight shuffle (threefold with rights)
   "r3k1n1/8/8/8/8/8/8/4K3 b q - 0 1",        \* the same for Black
   "4k3/3p4/8/4P3/4K3/8/8/8 b - - 0 1",       \* ...d5+ can only be met by king moves or exd6 e.p.
+  "r3k2r/8/8/8/8/8/8/R3K2R w KQkq - 0 1",    \* both sides can lose the same rights by rook shuffles (positions that differ in rights only)
   "b7/8/8/3Pp3/8/6k1/4n3/7K w - e6 0 1"      \* already stalemate although an en-passant square is recorded (capturer pinned)
 >>
 Roots == {ReadFen(RootFens[i]) : i \in 1..Len(RootFens)}
@@ -43,6 +44,8 @@ VARIABLE realok
 ASSUME MaxLen < 100
 RealMust == result = NoResult /\ Cardinality({i \in 1..Len(seen) : seen[i] = cur}) >= 3
 RealMay  == result = NoResult /\ Cardinality({i \in 1..Len(seen) : SameLegalEp(seen[i], cur)}) >= 3
+
+Enders(p, ms) == {m \in ms : LegalMoves(Apply(p, m)) = {}}      \* mating and stalemating moves
 
 Init == realok = TRUE /\ \E p \in Roots : GInit(p)
 
@@ -80,11 +83,16 @@ Next ==
   /\ Lemmas
   /\ Len(log) < MaxLen
   /\ LET ms == LegalMoves(cur)
-     IN \/ (UNCHANGED realok /\ \E m \in FirstK(ms, MaxLegal) \cup Illegal(cur, ms) : TryMove(m))
+     IN \* the first MaxLegal legal moves, every move that ends the game at once, and some illegal ones
+        \/ (UNCHANGED realok /\ \E m \in FirstK(ms, MaxLegal) \cup Enders(cur, ms) \cup Illegal(cur, ms) : TryMove(m))
         \/ (DeclareDraw /\ realok' = (realok /\ (RealMust \/ ~ClaimOp)))
         \* in "claims" mode the other actions are explored only where a claim is available (e.g. resign, then declare)
-        \/ ((Mode = "protocol" \/ ClaimOp \/ result # NoResult) /\ UNCHANGED realok /\ (\E c \in Colors : OfferDraw(c) \/ Resign(c)))
-        \/ ((Mode = "protocol" \/ ClaimOp \/ result # NoResult) /\ UNCHANGED realok /\ AcceptDraw)
+        \/ (Mode = "protocol" /\ UNCHANGED realok /\ (\E c \in Colors : OfferDraw(c) \/ Resign(c)))
+        \/ (Mode = "protocol" /\ UNCHANGED realok /\ AcceptDraw)
+        \/ (Mode = "claims" /\ ClaimOp /\ UNCHANGED realok /\ Resign("w"))       \* resign instead of claiming, then try to declare
+        \* an unanswered offer in a position that has occurred exactly twice must not count as a third occurrence
+        \/ (Mode = "claims" /\ ~ClaimOp /\ Cardinality({i \in 1..Len(seen) : seen[i] = cur}) = 2
+             /\ (Len(log) = 0 \/ log[Len(log)].a # "offer") /\ UNCHANGED realok /\ OfferDraw("w"))
 
 Spec == Init /\ [][Next]_<<gvars, realok>>
 (* ret is an output, not state: two histories that differ only in the last   *)
